@@ -509,6 +509,13 @@ Section PolyProofs.
     apply (lsum_ext_). intros. apply delta_mul_r.
   Qed.
 
+  Lemma lsum_filter_raw h (p : X -> bool) (l : poly) :
+    lsum (fun x r => if p x then h x r else 0) l = lsum h (filter (fun e => p (fst e)) l).
+  Proof.
+    induction l as [|e0 l IHl]; [reflexivity|]. cbn [filter]. rewrite lsum_cons_.
+    destruct (p (fst e0)); rewrite ?lsum_cons_, IHl; ring.
+  Qed.
+
   Lemma rel_rd regs rregs i : Forall2 rel regs rregs -> rel (rd regs i) (rd rregs i).
   Proof.
     intros H. revert i. induction H as [|p r ps rs Hp _ IH]; intros [|i]; cbn; try apply rel_nil; [assumption|apply IH].
@@ -540,25 +547,26 @@ Section PolyProofs.
         apply (rel_lsum (fun x r => delta z (f x) r)); [|assumption].
         split; intros; unfold Lc.delta; destruct (xeqb (f x) z); ring.
     - split.
-      + split; [apply NoZero_filter_gens; assumption|]. apply KeysOk_filter_gens; [assumption|apply Ha].
+      + split; [apply NoZero_filter_gens; assumption|]. apply KeysOk_filter_gens; apply Ha.
       + intros z. rewrite (coeff_rcoeff_) by (apply NoZero_filter_gens; assumption).
         unfold Lc.rcoeff. rewrite (lsum_filter_gens_) by (apply delta_additive; assumption).
-        rewrite (rel_lsum (fun x r => if f x then delta z x r else 0) _ _ _ Ha).
-        * induction (rd rregs a) as [|e0 l IHl]; [reflexivity|]. cbn [filter]. rewrite (lsum_cons_).
-          destruct (f (fst e0)); rewrite ?(lsum_cons_), IHl; ring.
-        * split; intros; unfold Lc.delta; destruct (f x), (xeqb x z); ring.
+        assert (A : additive o (fun x r => if f x then delta z x r else 0))
+          by (split; intros; unfold Lc.delta; destruct (f x), (xeqb x z); ring).
+        rewrite (rel_lsum (fun x r => if f x then delta z x r else 0) _ _ A Ha).
+        apply lsum_filter_raw.
     - split.
-      + split; [apply NoZero_apply; assumption|]. apply KeysOk_apply; [assumption| |apply Ha].
+      + split; [apply NoZero_apply; assumption|]. apply KeysOk_apply; [|apply Ha].
         intros x Hx. now apply KeysOk_from_iter, Hok.
       + intros z. rewrite (coeff_apply_). unfold Lc.rcoeff. rewrite (lsum_flat_map_).
-        rewrite (rel_lsum (fun x r => lsum (fun y s => delta z y (r * s)) (p_from_iter m o (f x))) _ _ _ Ha).
-        * apply (lsum_ext_). intros x r. cbn [fst snd]. rewrite (lsum_map_terms_). cbn [fst snd].
-          unfold p_from_iter. apply (lsum_from_iter_).
-          split; intros; unfold Lc.delta; destruct (xeqb x0 z); ring.
-        * split; intros.
-          -- transitivity (lsum (fun _ _ => 0) (p_from_iter m o (f x))); [|apply lsum_zero_].
-             apply (lsum_ext_). intros. unfold Lc.delta. destruct (xeqb _ z); ring.
-          -- rewrite <- (lsum_plus_). apply (lsum_ext_). intros. unfold Lc.delta. destruct (xeqb _ z); ring.
+        assert (A : additive o (fun x r => lsum (fun y s => delta z y (r * s)) (p_from_iter m o (f x)))).
+        { split; intros.
+          - transitivity (lsum (fun _ _ => 0) (p_from_iter m o (f x))); [|apply lsum_zero_].
+            apply (lsum_ext_). intros. unfold Lc.delta. destruct (xeqb _ z); ring.
+          - rewrite <- (lsum_plus_). apply (lsum_ext_). intros. unfold Lc.delta. destruct (xeqb _ z); ring. }
+        rewrite (rel_lsum _ _ _ A Ha).
+        apply (lsum_ext_). intros x r. cbn [fst snd]. rewrite (lsum_map_terms_). cbn [fst snd].
+        unfold p_from_iter. apply (lsum_from_iter_).
+        split; intros; unfold Lc.delta; destruct (xeqb x0 z); ring.
   Qed.
 
   Theorem run_refines ops regs rregs : Forall op_ok ops -> Forall2 rel regs rregs ->
